@@ -1506,7 +1506,7 @@ VC_ENSURES(VC_ADV_POST_VERIFY_FALSE(VC_RET, scan_flags))                        
                     state->flags = BINSON_STATE_IN_ARRAY_1;
                     state->array_depth++;
                 }
-                else {
+                else if (state->flags == BINSON_STATE_IN_OBJ_EXPECTING_FIELD) {
                     state->flags = BINSON_STATE_IN_OBJ_EXPECTING_VALUE;
                 }
                 break;
